@@ -161,8 +161,71 @@ def _ground_case(case, tier, seed):
             res['discharged'] += 1
         else:
             res['violations'].append(dict(case=case.name, claim='nan_beyond_range[%s]' % smbl, values={}, observed=[vn, 'nan'], how='concrete'))
+    # the same entries reached through the public per-ion API: element.ion[q].xray.f0(Q)
+    n_api = 0
+    for smbl, f in cromermann._cmformulas.items():
+        m = re.fullmatch(r'([A-Z][a-z]?)(?:(\d)([+-]))?', smbl)
+        if not m:
+            continue
+        try:
+            el = pt.elements.symbol(m.group(1))
+        except ValueError:
+            continue
+        q = int(m.group(2)) * (1 if m.group(3) == '+' else -1) if m.group(2) else 0
+        if q and q not in el.ions:
+            continue
+        atom = el.ion[q] if q else el
+        for Q in (0.0, 3.0):
+            res['claims'] += 1
+            n_api += 1
+            got = float(atom.xray.f0(Q))
+            want = float(f.atstol(Q / (4 * math.pi)))
+            if abs(got - want) <= 1e-9 * max(1.0, abs(want)):
+                res['discharged'] += 1
+            else:
+                res['violations'].append(dict(case=case.name, claim='f0_entry_for_ion[%s]' % smbl, values={'Q': Q}, observed=[got, want], how='concrete'))
+    # covalent radii and uncertainties against an independent reading of the embedded table
+    from periodictable import covalent_radius
+    rows = {}
+    for line in covalent_radius.Cordero.split('\n'):
+        w = line.split()
+        if not w or w[0] == '-':
+            continue
+        rows.setdefault(int(w[0]), (float(w[2]), float(w[3]) * 0.01 if len(w) > 3 else 0.0))
+    n_rad = 0
+    for el in pt.elements:
+        if el.number == 0:
+            continue
+        res['claims'] += 1
+        n_rad += 1
+        r, dr = el.covalent_radius, el.covalent_radius_uncertainty
+        if el.number in rows:
+            ok = r == rows[el.number][0] and dr is not None and abs(dr - rows[el.number][1]) < 1e-12
+        else:
+            ok = r is None and dr is None
+        if ok:
+            res['discharged'] += 1
+        else:
+            res['violations'].append(dict(case=case.name, claim='covalent_radius[%s]' % el.symbol, values={}, observed=[repr((r, dr)), repr(rows.get(el.number))], how='concrete'))
+    # K-alpha / K-beta1 emission lines
+    from periodictable import xsf
+    lines = {}
+    for row in xsf.spectral_lines_data.split('\n'):
+        w = row.split()
+        if len(w) == 3:
+            lines[w[0]] = (float(w[1]), float(w[2]))
+    n_lines = 0
+    for el in pt.elements:
+        res['claims'] += 1
+        n_lines += 1
+        ka, kb = getattr(el, 'K_alpha', None), getattr(el, 'K_beta1', None)
+        ok = (ka, kb) == lines[el.symbol] if el.symbol in lines else (ka is None and kb is None)
+        if ok:
+            res['discharged'] += 1
+        else:
+            res['violations'].append(dict(case=case.name, claim='emission_lines[%s]' % el.symbol, values={}, observed=[repr((ka, kb)), repr(lines.get(el.symbol))], how='concrete'))
     res['queries'] = res['distinct'] = res['claims']
-    res['samples'] = [dict(magnetic_coefficient_sets=n_ff, cromer_mann_entries=n_cm)]
+    res['samples'] = [dict(magnetic_coefficient_sets=n_ff, cromer_mann_entries=n_cm, f0_via_ion_api=n_api, covalent_radii=n_rad, emission_rows=n_lines)]
     res['violations'] = res['violations'][:5]
     return res
 
